@@ -341,6 +341,50 @@ func verifH_C09_connect() {
 	verifReach("encoded")
 }
 
+// L09.d field lengths across the 255/256 boundary: every length prefix in the
+// CONNECT payload has two bytes, and each field's high byte must be its own
+// (concrete content, lengths chosen independently per field).
+func verifH_C09_connectsizes() {
+	verifUnwind(3000)
+	lens := []int{1, 255, 256, 300}
+	mk := func(tag string, c byte) []byte {
+		n := lens[verifChoose(tag, len(lens))]
+		b := make([]byte, n)
+		for i := range b {
+			b[i] = c
+		}
+		return b
+	}
+	cfg := &Config{}
+	d := &verifDialer{}
+	cfg.Dialer = d.dial
+	ref := &verifRefConnect{}
+	ref.clientID = mk("cidlen", 'c')
+	ref.keepAlive = 60
+	cfg.KeepAlive = 60
+	ref.user = mk("userlen", 'u')
+	ref.hasUser = true
+	cfg.UserName = string(ref.user)
+	if verifChoose("pw", 2) == 1 {
+		ref.password = mk("pwlen", 'p')
+		ref.hasPassword = true
+		cfg.Password = ref.password
+	}
+	if verifChoose("will", 2) == 1 {
+		ref.hasWill = true
+		ref.willTopic = mk("wtopiclen", 't')
+		ref.willMsg = mk("wmsglen", 'm')
+		cfg.Will.Topic = string(ref.willTopic)
+		cfg.Will.Message = ref.willMsg
+	}
+	verifAssert(cfg.valid() == nil, "C09: valid Config refused")
+	got := cfg.newCONNREQ(ref.clientID)
+	want := verifRefCONNECT(ref)
+	verifAssert(len(got) == len(want), "C09: CONNECT size differs from the reference")
+	verifAssert(verifBytesEq(got, want), "C09: CONNECT bytes differ from the reference encoding (a length prefix or the remaining length is wrong for fields of 255..300 bytes)")
+	verifReach("encoded")
+}
+
 // remaining-length width boundaries of SUBSCRIBE / UNSUBSCRIBE (concrete long filters)
 func verifH_C09_requestsizes() {
 	verifUnwind(70000)
